@@ -1,12 +1,13 @@
 (* C18 - database bookkeeping conserves peptides (split, merge, encode, summarize).
-   Model: Model/Split.v (+ Model/Header.v for the header grammar).  PARTIAL: see the comments at the end
-   for the statements that are only correspondence-tested. *)
+   Model: Model/Split.v (+ Model/Header.v for the header grammar).  Every statement is for all pools,
+   orders, option sets; external behaviour (uuid4) enters encode_roundtrip as Section hypotheses. *)
 From Coq Require Import Permutation.
 From MoPep Require Import Model.Base Gen.HeaderCfg Model.Header Model.HeaderRef Model.Filter Model.Split
-  Proofs.FilterProofs Proofs.HeaderProofs Proofs.SplitProofs.
+  Proofs.FilterProofs Proofs.HeaderProofs Proofs.SplitOrder Proofs.SplitProofs Proofs.MergeProofs
+  Proofs.EncodeProofs Proofs.SummaryProofs Proofs.WildProofs.
 Open Scope Z_scope.
 
-(* the regenerated header tables / code shapes coincide with the hand-written reference *)
+(* ---- obligations tying the regenerated tables / code shapes to the hand-written reference ---- *)
 Theorem header_tables_are_spec_c18 :
   cfg_ctbv_prefixes = ref_ctbv_prefixes /\ cfg_alt_translation_prefixes = ref_alt_translation_prefixes /\
   cfg_alt_splice_types = ref_splice_types /\ cfg_splice_test = 2 /\
@@ -21,10 +22,26 @@ Theorem splitter_cfg_recognised : cfg_recognised = true.
 Proof. vm_compute. reflexivity. Qed.
 Print Assumptions splitter_cfg_recognised.
 
-(* split_partition: the databases have pairwise different keys; flattened, they are a permutation of an
-   assignment list that has exactly one (key, peptide) per peptide of the (de-duplicated) input pool, with
-   the sequence unchanged and the header entries (labels) preserved as a multiset.  Hence every peptide
-   lands in exactly one database. *)
+(* the three code shapes of the splitter / label map are the specified ones (since /repo 9dea6da, 238625f):
+   __init__ keeps whole source names, the wildcard expansion reaches "all other sources", add_record keeps
+   the first source.  A source change of any of them breaks this obligation. *)
+Theorem splitter_shapes_are_spec :
+  cfg_init_sources_by_char = false /\ cfg_wild_upper_exclusive = false /\ cfg_summary_last_wins = false.
+Proof. repeat split; reflexivity. Qed.
+Print Assumptions splitter_shapes_are_spec.
+
+(* the code's wildcard-map test IS the documented meaning of "A-+" / "A-*" (--order-source help text),
+   for every key and every source set drawn from the known sources *)
+Theorem wild_matches_spec : forall all k S,
+  subset S all = true -> (forall x, In x S -> is_wild x = false) ->
+  key_matches all k S = spec_key_matches k S.
+Proof. exact (wild_matches_spec_l (proj1 (proj2 splitter_shapes_are_spec))). Qed.
+Print Assumptions wild_matches_spec.
+
+(* ---- split ---- *)
+(* split_partition: database keys pairwise different; flattened, the databases are a permutation of an
+   assignment list with exactly one (key, peptide) per peptide of the (de-duplicated) input pool, the
+   sequence unchanged and the header entries (labels) preserved as a multiset. *)
 Theorem split_partition : forall c pool dbs,
   split_pool c pool = Ok dbs ->
   keys_distinct dbs /\
@@ -36,62 +53,114 @@ Theorem split_partition : forall c pool dbs,
 Proof. exact split_partition_l. Qed.
 Print Assumptions split_partition.
 
-(* split_choice, PARTIAL.  Proved: the database of a peptide is db_key (order / max groups / additional
-   split) of the source set of the FIRST entry after sorting, and that entry is one of the peptide's
-   (wildcard-mapped) entries.
-   NOT proved here: that the first entry is minimal in the source order
-       forall e, In e sorted -> src_gt lv (si_sources h) (si_sources e) = Ok false
-   (needs: ints_gt is a strict total order on to_int images, and sorting with the non-strict __lt__ below
-   still yields a list ordered by source set).  The correspondence checks on every generated case that the
-   implementation's header is ordered by the model's ranks and that the database is the one of the best
-   source set computed independently from the generator's ground truth. *)
-Theorem split_choice_partial : forall c pool a,
+(* split_choice: the database of a peptide is db_key (order names / max groups / additional split /
+   Remaining) of the source set of an entry h of the peptide (after group and wildcard mapping) that is of
+   HIGHEST PRIORITY: for no entry e does the code's own comparison say sources(h) > sources(e).  The
+   comparison is length-then-lexicographic on levels (src_gt); src_le is reflexive and transitive
+   (source_order_preorder), so "highest priority" is well defined although VariantPeptideInfo.__lt__ itself
+   is not a strict order (info_lt_not_asymmetric_refuted). *)
+Theorem split_choice : forall c pool a,
   split_assign c pool = Ok a ->
   Forall2 (fun p kx =>
      exists h t es', snd (snd kx) = h :: t /\ fst kx = db_key c (si_sources h) /\
-                     mapM (map_wild c) (snd p) = Ok es' /\ In h es')
+                     mapM (map_wild c) (snd p) = Ok es' /\ In h es' /\
+                     forall e, In e es' -> src_gt (c_levels c) (si_sources h) (si_sources e) = Ok false)
           (dedup pool) a.
-Proof. exact split_choice_partial_l. Qed.
-Print Assumptions split_choice_partial.
+Proof. exact split_choice_l. Qed.
+Print Assumptions split_choice.
 
-(* summary_totals: the n_total counts add up to the number of peptides *)
+Theorem source_order_preorder : forall lv,
+  (forall A, src_le lv A A) /\
+  (forall A B C, src_le lv A B -> src_le lv B C -> src_le lv A C) /\
+  (forall A B, src_gt lv A B = Ok true -> src_le lv B A) /\
+  (forall A A' B, set_eq A A' = true -> src_gt lv A B = src_gt lv A' B).
+Proof.
+  intro lv. split; [apply src_le_refl|]. split; [apply src_le_trans|]. split; [apply src_gt_true_le|apply src_gt_cong_l].
+Qed.
+Print Assumptions source_order_preorder.
+
+(* ---- merge ---- *)
+(* merge_union: the merged pool has pairwise distinct sequences; its sequences are the union of the input
+   files' sequences; the entries listed under a sequence are the union of its entries over the input files
+   (each file read as VariantPeptidePool.load reads it: first record of a sequence wins) *)
+Theorem merge_union : forall (A : Type) (files : list (list (seq * list A))),
+  let out := merge_files files in
+  nodup_seq out /\
+  (forall s, has_seq s out <-> exists g, In g files /\ has_seq s g) /\
+  (forall s e, has_entry s e out <-> exists g, In g files /\ has_entry s e (dedup g)).
+Proof. intros A. exact (@merge_union_l A). Qed.
+Print Assumptions merge_union.
+
+(* ---- encode ---- *)
+(* encode_roundtrip: for pairwise distinct identifiers none of which carries the decoy string, and a
+   non-empty decoy string: every header is restored exactly from the dictionary, and the encoded header is
+   marked as decoy iff the original was *)
+Theorem encode_roundtrip : forall (fresh : nat -> str) (decoy : str) (suffix : bool),
+  (forall i j, fresh i = fresh j -> i = j) ->
+  (forall n, is_decoy decoy suffix (fresh n) = false) ->
+  decoy <> [] ->
+  forall hs hs' d,
+    encode fresh decoy suffix hs = (hs', d) ->
+    Forall2 (fun h h' => decode decoy suffix d h' = Some h /\
+                         is_decoy decoy suffix h' = is_decoy decoy suffix h) hs hs'.
+Proof. exact encode_roundtrip_l. Qed.
+Print Assumptions encode_roundtrip.
+
+(* ---- summarize ---- *)
 Theorem summary_totals : forall lv pool t,
   summarize lv pool = Ok t -> total_of t = Z.of_nat (length (dedup pool)).
 Proof. exact summary_totals_l. Qed.
 Print Assumptions summary_totals.
 
-(* FINDING (reported, harmless for the database choice): VariantPeptideInfo.__lt__ is not asymmetric --
-   two entries with the same source set that differ in gene / variant index are each "less than" the
-   other, so list.sort() leaves their relative order input-order dependent. *)
+(* summary_matches_split, with its exact precondition: no wildcard key in the order, different source sets
+   have different ranks (true when the levels are pairwise distinct: distinct_levels_rank_injective), no
+   peptide sent to Remaining / an additional database, same label map for both commands (the model uses one
+   env; on the code this is splitter_shapes_are_spec: add_record keeps the first source as add_variant does).
+   Then per peptide the database key is the name of the summary row it is counted in, n_total of a source
+   set is the number of peptides with that key, and the size of a database is the number of peptides
+   assigned its key. *)
+Theorem summary_matches_split : forall c pool a t,
+  no_wild_keys (c_levels c) -> rank_injective (c_levels c) ->
+  split_assign c pool = Ok a ->
+  summarize (c_levels c) pool = Ok t ->
+  (forall kx h tl, In kx a -> snd (snd kx) = h :: tl -> set_len (si_sources h) <= c_max_groups c) ->
+  exists ks,
+    mapM (summary_key (c_levels c)) (dedup pool) = Ok ks /\
+    map fst a = map (set_str (c_levels c)) ks /\
+    (forall S, count_of S t = Z.of_nat (length (filter (fun T => set_eq T S) ks))) /\
+    (forall name, length (filter (fun kx => eq_seq (fst kx) name) (flat_dbs (group_by_key a))) =
+                  length (filter (fun k => eq_seq k name) (map fst a))).
+Proof. exact summary_matches_split_l. Qed.
+Print Assumptions summary_matches_split.
+
+Theorem distinct_levels_give_injective_ranks : forall lv, NoDup (map snd lv) -> rank_injective lv.
+Proof. exact distinct_levels_rank_injective. Qed.
+Print Assumptions distinct_levels_give_injective_ranks.
+
+(* REPORTED (harmless for the database choice): VariantPeptideInfo.__lt__ is not asymmetric -- two entries
+   with the same source set that differ in gene / variant index are each "less than" the other, so
+   list.sort() leaves their relative order input-order dependent. *)
 Theorem info_lt_not_asymmetric_refuted :
   exists lv a b, info_lt lv a b = Ok true /\ info_lt lv b a = Ok true.
 Proof. exact info_lt_not_asymmetric_l. Qed.
 Print Assumptions info_lt_not_asymmetric_refuted.
 
-(* FINDING C18-wildcard-expansion at the model level: while PeptidePoolSplitter.__init__ iterates plain
-   source names character by character, a wildcard key does not match a source set it is documented to
-   match (order "ab,c-+", GVF source c, entry sources {c, ab}). *)
-Theorem wildcard_expansion_refuted : cfg_init_sources_by_char = true ->
-  exists order gvf k S,
-    In k order /\ spec_key_matches k S = true /\
-    key_matches (snd (mk_order order [] gvf)) k S = false.
-Proof. exact wildcard_expansion_refuted_l. Qed.
-Print Assumptions wildcard_expansion_refuted.
-
-(* NOT PROVED (correspondence only, every run):
-     merge_union      : merge_files = union of sequences with the union of header entries
-                        (model: pool_add / merge_files; checked against merge_fasta(args) and against the
-                        union computed independently);
-     encode_roundtrip : forall i, decode d (nth i (fst (encode hs))) = Some (nth i hs) for pairwise distinct
-                        ids none of which starts/ends with the decoy string and decoy <> ""
-                        (model: encode / decode with `fresh` a Section variable; checked on the real
-                        encode_fasta(args) output with the ids it drew);
-     summary_matches_split : stated with its precondition (no wildcard key, every chosen set within
-                        --max-source-groups, no additional split, every (gene, variant id) named by one GVF
-                        only) in docs/C18.md and checked on every case that satisfies it. *)
-
-Example split_example :
-  exists dbs, split_pool (mkCfg [(KStr [65], 0); (KStr [66], 1)] [[65]; [66]] 1 [])
-                [ ([1], [mkInfo [10] [[71]] [[71]] (Some 1) [[66]]; mkInfo [11] [[71]] [[71]] (Some 2) [[65]]]);
-                  ([2], [mkInfo [12] [[71]] [[71]] (Some 1) [[66]]]) ] = Ok dbs /\ length dbs = 2%nat.
+(* the hypotheses are satisfiable by non-trivial states *)
+Definition ex_cfg : scfg := mkCfg [(KStr [65], 0); (KStr [66], 1)] [[65]; [66]] 1 [].
+Definition ex_pool18 : list spep :=
+  [ ([1], [mkInfo [10] [[71]] [[71]] (Some 1) [[66]]; mkInfo [11] [[71]] [[71]] (Some 2) [[65]]]);
+    ([2], [mkInfo [12] [[71]] [[71]] (Some 1) [[66]]]) ].
+Example split_example : exists dbs, split_pool ex_cfg ex_pool18 = Ok dbs /\ length dbs = 2%nat.
 Proof. eexists. split; vm_compute; reflexivity. Qed.
+Example summary_example :
+  exists a t, split_assign ex_cfg ex_pool18 = Ok a /\ summarize (c_levels ex_cfg) ex_pool18 = Ok t /\
+              no_wild_keys (c_levels ex_cfg) /\ NoDup (map snd (c_levels ex_cfg)) /\ total_of t = 2.
+Proof.
+  eexists. eexists. split; [vm_compute; reflexivity|]. split; [vm_compute; reflexivity|]. split.
+  - intros kv [H|[H|[]]]; subst; reflexivity.
+  - split; [|reflexivity]. cbn. constructor; [intros [H|[]]; discriminate|constructor; [intros []|constructor]].
+Qed.
+Example encode_example :
+  let fresh := fun n => [120; Z.of_nat n + 48] in
+  exists hs' d, encode fresh [68;95] false [[68;95;65]; [65]; [66]] = (hs', d) /\ length d = 2%nat.
+Proof. eexists. eexists. split; vm_compute; reflexivity. Qed.
